@@ -322,6 +322,7 @@ func run(c *rig.Ctx) {
 	})
 
 	failingNeighbour(c)
+	afterShutdown(c)
 }
 
 func main() {
